@@ -27,7 +27,7 @@ GROUPS = [
 NAMES = ["a", "b", "c", "s.t", "`s.t`", "`s`.`t`", "S.T", "a b", "é表", "x-y", "a.b", "a.b.c", ".a", "a.", "..", "sql", "a.sq", ".sq", "a.sql.b",
          "x.sql", ".sql", "a.sqlx", ".sql.sql", "s/t", "./a", "a/./b", "../x", "a//b", "a/", "a\0b", "q#cr", "r#cr", "q#crlf", "q#bad", "w#empty",
          "", "*", "a?b", "a:b", "a;b", "a'b", "a\"b", "a\\b", "~", "-", "CON", "a\tb", "a\nb", "A", "a.SQL"]
-CRASHES = [(1, 0), (2, 0), (3, 0), (4, 0), (4, 7), (4, 10 ** 6), (5, 0)]
+CRASHES = [(1, 0), (2, 0), (3, 0), (3, 7), (3, 10 ** 6), (4, 0), (5, 0)]      # (atomic steps completed, characters flushed), see Cache.get
 
 
 def op_get(n):
@@ -102,11 +102,11 @@ def judge(ops, a, expected):
 
 
 def signature(kind, ops, answer):
-    """failure kind + the hazards left in the (shrunk) history; `crash` counts only if a process really died between open and close"""
+    """failure kind + the hazards left in the (shrunk) history; `crash` counts only if a process really died between the creation of the file and its rename"""
     hz = {h for h in (hazard(name_of(o)) for o in ops if name_of(o) is not None) if h}
     if answer.startswith("OK "):
         for o, r in zip(ops, parse_answer(answer)[0]):
-            if o.startswith(("crash:3:", "crash:4:")) and r[1:] == "CRASHED":
+            if o.startswith(("crash:2:", "crash:3:", "crash:4:")) and r[1:] == "CRASHED":
                 hz.add("crash")
     return kind + ":" + ("+".join(sorted(hz)) if hz else "plain")
 
@@ -155,7 +155,7 @@ def histories(ctx, r):
     seqs = []
     depth = 3 if ctx.quick else 4
     for g in GROUPS:
-        alphabet = ["new", "nodisk"] + [op_get(n) for n in g] + [op_crash(n, (3, 0)) for n in g] + [op_crash(g[0], (4, 7))]
+        alphabet = ["new", "nodisk"] + [op_get(n) for n in g] + [op_crash(n, (2, 0)) for n in g] + [op_crash(g[0], (3, 7))]
         for k in range(1, depth + 1):
             for tail in itertools.product(alphabet, repeat=k):
                 seqs.append(["new"] + list(tail))
@@ -358,7 +358,7 @@ def lineage_histories(ctx, r):
 
 def run(ctx):
     r = ctx.rng.fork("c17")
-    ctx.cov["rule"] = ("A: every operation history `new` + up to %d operations over {new, nodisk, get n, crash-after-truncate n, crash-during-write n} for %d name groups "
+    ctx.cov["rule"] = ("A: every operation history `new` + up to %d operations over {new, nodisk, get n, death-after-creating-the-temporary-file n, death-during-write n} for %d name groups "
                        "(plain / `.sql` inside / `/` / `./` / `../` / NUL / carriage return in the provider's text / unparsable text / quoting), plus random histories of 3-14 "
                        "operations over %d names and %d crash points; model and implementation (real class, fresh temporary directory, crash = BaseException raised inside the "
                        "patched open/write/close) must agree; oracle = abstract cache (answer = parse of the provider's text, provider asked only when cold, nothing written "
@@ -373,6 +373,9 @@ def run(ctx):
     ctx.cov["validated_only"] = ["agreement of the cache model with tool.py (sampled histories)", "lineage requests: provider calls ⊆ named base tables (implementation only; "
                                  "the lineage analyzers are not modelled here)", "atomicity of close / completeness of os.listdir (assumed)"]
     seqs, n_exh = histories(ctx, r)
+    for f in ctx.findings:                       # witnesses of findings, fixed ones included: the regression corpus
+        if "ops" in f.get("witness", {}):
+            seqs.append(list(f["witness"]["ops"]))
     names = {name_of(o) for s in seqs for o in s if name_of(o) is not None} | set(NAMES)
     for f in ctx.findings:
         names |= {name_of(o) for o in f.get("witness", {}).get("ops", []) if name_of(o) is not None}
@@ -390,7 +393,7 @@ def run(ctx):
         if j is not None:
             if j[0] == "harness":
                 raise E.Infra("C17 harness: %s on %s" % (j[2], s))
-            fails.setdefault((j[0], tuple(hz), any(o.startswith(("crash:3", "crash:4")) for o in s)), []).append((s, j))
+            fails.setdefault((j[0], tuple(hz), any(o.startswith(("crash:2", "crash:3", "crash:4")) for o in s)), []).append((s, j))
     # shrink the two shortest histories of every (failure kind, hazard set, crash?) class, all classes in one batch per round
     todo = []
     for key, lst in sorted(fails.items()):
